@@ -1,4 +1,8 @@
 import Driver.Codec
+import Driver.SearchState
+import TakVerif.Impl.Alloc
+import TakVerif.Impl.Book
+import TakVerif.Impl.Bot
 import Driver.SolverState
 namespace Driver
 open Tak
@@ -6,7 +10,16 @@ open Tak
 /-- driver state: the Zobrist basis sent by the harness; per-module session state is added by the modules -/
 structure St where
   basis : Array W := Array.replicate 64 0#64
-  solvers : SolverSession := {}
+  search : SearchSess := {}
+  -- C09 session: heap-side and pure-side interpreter states (`Tak.HState.step` / `Tak.PState.step`, the very
+  -- functions `C09.heap_refines_pure` is about) and the harness' slot -> handle table
+  hs : Tak.HState := {}
+  ps : Tak.PState := #[]
+  slots : Array (Option Nat) := Array.replicate 16 none
+  -- C04 (opening book) session: the book built by the last `book`/`realbook` op
+  symBook : Option Tak.Book := none
+  bot : Option Tak.Bot.Session := none      -- C07: the bot game of the current `case`
+  solvers : SolverSession := {}           -- C06: cache of the last exactly solved game graph
 deriving Inhabited
 
 /-- a handler returns `none` when the op is not its own -/
